@@ -277,6 +277,12 @@ func TestC22(t *testing.T) {
 		st.Eval()
 		td := drawTable(rt, opts)
 		pl := drawPlan(rt, td)
+		if td.virtualBeforeKeyColumn() {
+			// DML on these tables is not reproducible in the engine itself (see virtualBeforeKeyColumn);
+			// the SHOW CREATE round trip and the metadata probes are still compared
+			pl = &probePlan{}
+			st.Class("dml-skipped:virtual-column-before-key-column")
+		}
 		redoInPlace := rapid.Bool().Draw(rt, "redoInPlace")
 		create := td.render()
 		sigs := tableSignatures(td)
